@@ -18,7 +18,7 @@ _RWS = r"\s+"
 # A keyword must not be directly followed by something that continues an identifier:
 _KEYWORD_END = r"(?![\w.])"
 _INTEGER = r"[+-]?\d+"
-_DATE = r"[1-9]\d{3}-(?:0\d|1[0-2])-(?:[0-2]\d|3[01])"
+_DATE = r"\d{4}-(?:0\d|1[0-2])-(?:[0-2]\d|3[01])"
 _TIME = r"(?:[01]\d|2[0-3]):[0-5]\d(?::[0-5]\d(?:\.\d{1,12})?)"
 
 # Defines known functions and min/max nr of args:
